@@ -531,6 +531,14 @@ _R8 = [
     (("C15", "C07"), rules8.residual_arithmetic_is_directional, 2, None, "ford_fulkerson subtracts capacities / flows only where the traversal direction is known"),
     (("C18", "C04", "C06"), rules8.index_vs_count, 1, None, "no node index is tested against node_count() of MatrixGraph / StableGraph (growth loops excepted)"),
     (("C20", "C07"), rules8.position_vs_index, 20, None, "a Vec collected in enumeration order is not indexed by to_index without NodeCompactIndexable"),
+    (("C05",), rules8.csr_sorted_size, 1, None, "from_sorted_edges sizes the graph over both endpoints of every edge"),
+    (("C06", "C04"), rules8.adjacency_matrix_only_sets, 3, None, "adjacency_matrix impls only set bits"),
+    (("C09", "C07"), rules8.tarjan_initial_state, 1, None, "every TarjanScc construction starts at index 1 / componentcount usize::MAX"),
+    (("C10",), rules8.dijkstra_exits, 3, None, "dijkstra leaves its loop only on an empty heap or when the popped node is the goal"),
+    (("C14",), rules8.acyclic_remove_presence, 2, None, "Acyclic::remove_node touches the order map only under a presence test of the node"),
+    (("C15",), rules8.matching_never_unvisits, 10, None, "matching.rs never clears a visit mark"),
+    (("C18",), rules8.dot_connector_source, 3, None, "Dot's TYPE / EDGE table index is is_directed() on every path"),
+    (("C20",), rules8.dsatur_key_shape, 3, None, "dsatur's heap entries are scored (saturation, degree)"),
     (("C17",), rules8.reader_never_panics, 50, None, "the deserialising functions contain no explicit panic site (assert / debug_assert / unwrap / expect / panic) on a reachable path"),
 ]
 for _pids, _fn, _floor, _predf, _txt in _R8:
